@@ -100,9 +100,9 @@ func VerifHarness_TriggerRules() {
 		return
 	}
 	var an verifAnalysis
-	panicked, _ := errors.VerifPanics(func() { an = verifAnalyzeWith(code, verifHost{}, true) })
+	panicked, pmsg := errors.VerifPanics(func() { an = verifAnalyzeWith(code, verifHost{}, true) })
 	if panicked {
-		errors.VerifReached("analyzer-panicked") // C05's subject
+		vrAnalyzerPanicked(pmsg)
 		return
 	}
 	errors.VerifReached("analyzed")
@@ -181,9 +181,9 @@ func VerifHarness_ImplRules() {
 		faulty = true
 	}
 	var an verifAnalysis
-	panicked, _ := errors.VerifPanics(func() { an = verifAnalyzeWith(code, verifHost{}, true) })
+	panicked, pmsg := errors.VerifPanics(func() { an = verifAnalyzeWith(code, verifHost{}, true) })
 	if panicked {
-		errors.VerifReached("analyzer-panicked") // C05's subject
+		vrAnalyzerPanicked(pmsg)
 		return
 	}
 	errors.VerifReached("analyzed")
